@@ -124,7 +124,8 @@ def main():
         tie_items = mod.translate()   # list of (name, ok, detail)
         for name, ok, detail in tie_items:
             if not ok:
-                notes.append("translator tie %s did not check (%s); falling back to the differential tie" % (name, detail[:200]))
+                # the regenerated definition is no longer the proved one: the theorems are not about this source any more
+                broken.append(("translator tie", name, detail[:1500]))
 
     # ---- 3. proof obligations
     names, printed = theorem_names(pid)
